@@ -18,6 +18,15 @@ def gen_history(rng, nd, ncmd):
                 ('sync', '-B', str(rng.randint(1, 2))), ('sync',)]
         if rng.random() < 0.5:
             return ops
+    elif sc < 0.4 and sc >= 0.3:
+        # files only touched (same bytes, new time-stamp) share stripes with a real change on another disk
+        ops += [('write', 'd1', 'A', 3072), ('write', 'd2', 'B', 3072)] + ([('write', 'd3', 'C', 3072)] if nd >= 3 else []) + [('sync',)]
+        chg = rng.randint(1, min(nd, 3))
+        for i in range(1, min(nd, 3) + 1):
+            ops.append(('write', 'd%d' % i, 'ABC'[i - 1], 3072) if i == chg else ('touch', 'd%d' % i, 'ABC'[i - 1]))
+        ops += [('sync',)]
+        if rng.random() < 0.5:
+            return ops
     elif sc < 0.3:
         # a silent error and a deletion (or a replacement) meet in the same stripe
         ops += [('write', 'd1', 'A', 4096), ('write', 'd2', 'B', 4096), ('write', 'd%d' % nd, 'C', 2048), ('sync',),
@@ -44,6 +53,8 @@ def gen_history(rng, nd, ncmd):
                 ops.append(('append', d, n, rng.choice([1, 100, 1024, 2000])))
             elif k < 0.94:
                 ops.append(('truncate', d, n, rng.choice([0, 1, 1024, 1500])))
+            elif k < 0.955:
+                ops.append(('touch', d, n))                          # same bytes, new time-stamp
             elif k < 0.98:
                 ops.append(('corrupt', d, rng.getrandbits(16)))      # silent corruption of a synced block (size, mtime kept)
             else:
@@ -120,6 +131,10 @@ class Hist:
         elif k == 'truncate':
             if os.path.isfile(p):
                 a.write(op[1], op[2], open(p, 'rb').read()[:op[3]])
+        elif k == 'touch':
+            if os.path.isfile(p) and not os.path.islink(p):
+                st = os.stat(p)
+                a.write(op[1], op[2], open(p, 'rb').read(), mtime_ns=st.st_mtime_ns + 1_000_000_007)
         elif k == 'corrupt':
             # silent corruption of a FULLY synced file (every block BLK in the content file, same size and mtime):
             # damage, not a version.  Files that are not fully synced are left alone.
